@@ -124,6 +124,9 @@ fn run_mode(ctx: &mut Ctx, mode: Mode) {
                         let Some(inputs) = input_vectors(&prog, func, small, max_params, max_vectors) else {
                             if cfg_i == 0 {
                                 ctx.count("functions_skipped_non_scalar_params", 1);
+                                if std::env::var("VERIF_LIST_SKIPPED").is_ok() {
+                                    eprintln!("SKIPPED {} {} {:?}", snip.name, name, user_params(func));
+                                }
                             }
                             continue;
                         };
